@@ -39,7 +39,7 @@ def model_to_code(r, module, cfg_text, component, tag, workers=None, timeout=150
     return res
 
 
-def code_to_model(r, component, module, cfg, chunks, gen_kw, begin_pred, describe=None, timeout=1500, mode="gen", env=None):
+def code_to_model(r, component, module, cfg, chunks, gen_kw, begin_pred, describe=None, timeout=1500, mode="gen", env=None, group_key=None):
     """generate `chunks` trace files with the harness, validate them in parallel.
     begin_pred(row) -> True for the first line of a case."""
     files = []
@@ -75,6 +75,10 @@ def code_to_model(r, component, module, cfg, chunks, gen_kw, begin_pred, describ
         elif o.rejected_line:
             k = min(o.rejected_line, len(rows)) - 1
             b = max([i for i in range(k + 1) if begin_pred(rows[i])] or [0])
+            if group_key:
+                # earlier inputs that ran on the same parser object belong to the counterexample (state left behind)
+                while b > 0 and k - b < 4 and group_key(rows[b - 1]) == group_key(rows[k]):
+                    b -= 1
             case = {"kind": "trace", "component": component, "lines": rows[b:k + 1], "origin": "random seed=%d" % r.seed}
             r.violation(case, "real observation rejected by %s at line %d: %s" % (module, k + 1, json.dumps(rows[k])[:400]))
         else:
